@@ -211,6 +211,17 @@ def loop(ctx, P, iters):
         done.add(reason)
         ctx.violation(ob, "R4.deadlock-loop", "Simulation.simulate_until_deadlock", construct, reason, msg, where, witness(st, 20))
 
+    # every single-iteration path of the loop body, whether or not the loop goes on afterwards
+    from ..paths import Frame, State, func_locals
+    whiles = [x for x in ast.walk(fn) if isinstance(x, ast.While)]
+    if len(whiles) == 1:
+        fr = Frame(sim, cls, fn)
+        fr._locals = func_locals(fn)
+        for st in w.block(whiles[0].body, [State()], fr):
+            if st.status == "raise":
+                continue
+            n_iter += 1
+            check_iteration(list(st.events), viol, st, ob)
     for st in w.paths_of(cls, fn):
         if st.status == "raise":
             continue
